@@ -221,3 +221,59 @@ def is_decimal_literal(e: ast.AST, value: Optional[str] = None) -> bool:
     if isinstance(e, ast.Name) and e.id == "ZERO":
         return value is None or value == "0"
     return False
+
+
+def call_graph(ctx: Any) -> Dict[str, Set[str]]:
+    """Function-level call graph over basana: caller qualname -> callee qualnames (declared targets and every
+    override, class-hierarchy analysis).  Calls inside a nested function belong to the nested function; the
+    enclosing function gets an edge to each nested function it defines (it may call or hand it out)."""
+    g = getattr(ctx, "_call_graph", None)
+    if g is not None:
+        return g
+    ci = call_index(ctx)
+    g = {q: set() for q in ctx.repo.funcs}
+    for fn, m, c, cs in ci.sites:
+        if fn is None:
+            continue
+        for callee in cs:
+            for t in ci.overrides_of(callee):
+                if t in ctx.repo.funcs:
+                    g[fn.qualname].add(t)
+            # a class call runs __init__
+            init = f"{callee}.__init__"
+            if init in ctx.repo.funcs:
+                g[fn.qualname].add(init)
+    for q, fn in ctx.repo.funcs.items():
+        if fn.parent is not None:
+            g[fn.parent.qualname].add(q)
+    # properties: attribute reads resolved by mypy to a property getter
+    for m in ctx.repo.modules.values():
+        for n in ast.walk(m.tree):
+            if isinstance(n, ast.Attribute) and isinstance(n.ctx, ast.Load):
+                rc = ctx.facts.recv.get((m.relpath,) + loader.span(n))
+                if rc:
+                    for cls in ctx.facts.mro.get(rc, [rc]):
+                        q = f"{cls}.{n.attr}"
+                        f2 = ctx.repo.funcs.get(q)
+                        if f2 is not None and "property" in [d.split(".")[-1] for d in decorators(f2)]:
+                            enc = ctx.repo.enclosing_func(n)
+                            if enc is not None:
+                                for t in ci.overrides_of(q):
+                                    if t in ctx.repo.funcs:
+                                        g[enc.qualname].add(t)
+                            break
+    ctx._call_graph = g
+    return g
+
+
+def reachable(ctx: Any, roots: List[str]) -> Set[str]:
+    g = call_graph(ctx)
+    seen: Set[str] = set()
+    work = list(roots)
+    while work:
+        q = work.pop()
+        if q in seen or q not in g:
+            continue
+        seen.add(q)
+        work.extend(g[q])
+    return seen
